@@ -253,15 +253,18 @@ def walk(c):
 
 
 def allowed_intervals(boxes):
-    """header + 32-byte look-ahead for every top-level box; the whole box + look-ahead for ftyp and moov"""
+    """header + 32-byte look-ahead for every top-level box; the whole box + look-ahead for ftyp and moov.
+    The look-ahead is the BufReader's: a refill of 32 bytes starts where the buffer ran empty, at the latest on the last byte of
+    the header (or of a kept box), so nothing at or beyond start + header length + 31 (kept box: start + size + 31) is read.
+    The 32 is the property's number, not the regenerated constant: a larger buffer in the code is a violation."""
     iv = []
     for off, hl, sz, ty, _ in boxes:
         if hl is None:
-            iv.append((off, off + 64))
+            iv.append((off, off + 63))
         elif ty in KEEP:
-            iv.append((off, off + sz + 32))
+            iv.append((off, off + sz + 31))
         else:
-            iv.append((off, off + hl + 32))
+            iv.append((off, off + hl + 31))
     return iv
 
 
